@@ -1,13 +1,18 @@
 import RdpModel.Codec.Decompress
 import RdpModel.Spec.Bitmap
 import RdpModel.Props.C08
+import RdpModel.Lemmas.Planar
+import RdpModel.Lemmas.PlanarEnc
 /-
   C09 — Decompressed bitmaps are pixel-exact.
   Proved here: exact colour widening for every 16-bit value; the uncompressed 32 bpp and
-  16 bpp paths (bottom-up → top-down, pixel for pixel).  The two RLE decoders are stated
-  against the reference decoders of Spec/Bitmap.lean (`c09_rle16_full`, `c09_planar_full`
-  are the full statements, kept as named propositions) and are checked on every run by
-  the correspondence with those reference decoders; see DESIGN.md §6 C09.
+  16 bpp paths (bottom-up → top-down, pixel for pixel); the planar RLE decoder at 32 bpp
+  (`c09_planar`: every stream the reference decoder accepts, i.e. any segmentation into
+  raw/run segments and either long-run escape, decodes to exactly the reference planes,
+  top-down, BGRA).  The interleaved RLE decoder at 16 bpp is stated against the reference
+  decoder of Spec/Bitmap.lean (`c09_rle16_full`, `c09_rle16_partial`, kept as named
+  propositions; the full one is refuted by `c09_rle16_full_fails`) and is checked on every
+  run by the correspondence with that reference decoder; see DESIGN.md §6 C09 and §11.
 -/
 namespace Rdp.Codec
 open Rdp Rdp.Spec.Bitmap
@@ -141,3 +146,72 @@ theorem c09_raw16 (d : Array UInt8) (w h : Nat) (hsz : w * h * 2 ≤ d.size) :
   rw [this, ← Array.foldl_toList, foldl_widen_toList]
   simp
 end Rdp.Codec
+
+namespace Rdp.Codec
+open Rdp Rdp.Spec.Bitmap
+
+/-! ### planar RLE at 32 bpp is exact -/
+
+theorem list_getD_toList (a : Array UInt8) (i : Nat) : a.toList.getD i 0 = a.getD i 0 := by
+  simp [List.getD_eq_getElem?_getD, Array.getD_eq_getD_getElem?]
+
+/-- **Planar RLE at 32 bpp is exact.**  Whenever the reference decoder (MS-RDPEGDI 3.1.9,
+    `planarDecode`) accepts a stream and yields the four colour planes, `decompress` returns
+    `w·h` BGRA pixels, rows top-down: the pixel in row `h-1-i` (stream row `i`), column `j`
+    is (B, G, R, A)[i][j]. -/
+theorem c09_planar (w h : Nat) (src : Bytes) (A R G B : List (List Nat))
+    (href : planarDecode w h src = some (A, R, G, B)) :
+    ∃ out, decompress ⟨w, h, 32, true, src.toArray⟩ = .ok out ∧ out.length = w * h * 4 ∧
+      ∀ i j, i < h → j < w →
+        (out.getD (((h - 1 - i) * w + j) * 4) 0).toNat = (B.getD i []).getD j 0 ∧
+        (out.getD (((h - 1 - i) * w + j) * 4 + 1) 0).toNat = (G.getD i []).getD j 0 ∧
+        (out.getD (((h - 1 - i) * w + j) * 4 + 2) 0).toNat = (R.getD i []).getD j 0 ∧
+        (out.getD (((h - 1 - i) * w + j) * 4 + 3) 0).toNat = (A.getD i []).getD j 0 := by
+  unfold decompress
+  simp only [if_true]
+  by_cases hz : w = 0 ∨ h = 0
+  · refine ⟨(Array.replicate (w * h * 4) 0).toList, ?_, by simp, ?_⟩
+    · unfold rle32; rw [if_pos hz]; rfl
+    · intro i j hi hj; omega
+  · have hw : 0 < w := by omega
+    have hh : 0 < h := by omega
+    obtain ⟨out, e1, e2, e3⟩ := rle32_ref w h src A R G B hw hh (Array.replicate (w * h * 4) 0) (by simp) href
+    refine ⟨out.toList, by rw [e1]; rfl, by simpa using e2, ?_⟩
+    intro i j hi hj
+    have hb : ((h - 1 - i) * w + j) * 4 = rowBase w h i + j * 4 := by
+      rw [rowBase_eq, Nat.add_mul, Nat.mul_assoc]
+    obtain ⟨b1, b2, b3, b4⟩ := e3 i j hi hj
+    simp only [list_getD_toList, hb]
+    refine ⟨b1, ?_, ?_, ?_⟩
+    · rw [Nat.add_comm]; exact b2
+    · rw [Nat.add_comm]; exact b3
+    · rw [Nat.add_comm]; exact b4
+
+/-- the premise is satisfiable: a 2×2 bitmap, alpha plane with a delta row, blue plane 9 -/
+example : planarDecode 2 2 [0x10, 0x20, 5, 5, 0x20, 2, 4, 0x20, 0, 0, 0x20, 0, 0, 0x20, 0, 0, 0x20, 0, 0, 0x20, 9, 9, 0x20, 0, 0]
+    = some ([[5, 5], [6, 7]], [[0, 0], [0, 0]], [[0, 0], [0, 0]], [[9, 9], [9, 9]]) := by decide
+/-- and with run segments and the long-run escapes (a 40×1 plane of 7s is `0x10 7, 0x72`) -/
+example : (planarDecode 40 1 [0x10, 0x10, 7, 0x72, 0x10, 0, 0x72, 0x10, 0, 0x72, 0x10, 0, 0x72]).map (fun p => p.1)
+    = some [List.replicate 40 7] := by decide +kernel
+
+end Rdp.Codec
+
+namespace Rdp.Codec
+open Rdp Rdp.Spec.Bitmap
+
+/-- **Every 32 bpp image round-trips.**  For every image given as four `w × h` byte
+    planes (stream order), the reference encoder produces a conformant stream and
+    `decompress` returns exactly that image, rows top-down, BGRA — `c09_planar` is
+    therefore not vacuous for any image. -/
+theorem c09_planar_roundtrip (w h : Nat) (A R G B : List (List Nat))
+    (hA : PlaneOk w h A) (hR : PlaneOk w h R) (hG : PlaneOk w h G) (hB : PlaneOk w h B) :
+    ∃ out, decompress ⟨w, h, 32, true, (planarEncode A R G B).toArray⟩ = .ok out ∧ out.length = w * h * 4 ∧
+      ∀ i j, i < h → j < w →
+        (out.getD (((h - 1 - i) * w + j) * 4) 0).toNat = (B.getD i []).getD j 0 ∧
+        (out.getD (((h - 1 - i) * w + j) * 4 + 1) 0).toNat = (G.getD i []).getD j 0 ∧
+        (out.getD (((h - 1 - i) * w + j) * 4 + 2) 0).toNat = (R.getD i []).getD j 0 ∧
+        (out.getD (((h - 1 - i) * w + j) * 4 + 3) 0).toNat = (A.getD i []).getD j 0 :=
+  c09_planar w h _ A R G B (planarDecode_encode w h A R G B hA hR hG hB)
+
+end Rdp.Codec
+
